@@ -36,6 +36,7 @@ class Ctx:
     shrink_runs = 0
     shrink_cap = 150
     harness_error = None
+    sigs: set = set()
 
 
 CTX = Ctx()
@@ -270,6 +271,7 @@ def build_machine():
                 for k, v in sorted(w.stats.items()):
                     CTX.stats[k] = CTX.stats.get(k, 0) + v
                 CTX.stats["sessions"] = CTX.stats.get("sessions", 0) + 1
+                CTX.sigs |= w.sigs
                 CTX.log.append([CTX.session, [[e["argv"], e["cwd"], e["code"], e["verdict"], e["fired"]] for e in w.events]])
                 if len(CTX.samples) < 3 and w.events:
                     CTX.samples.append({"ops": [t for t in w.trace][:10], "events": w.events[:6]})
@@ -317,6 +319,7 @@ def run(plan: dict) -> dict:
         "n_sessions": CTX.stats.get("sessions", 0), "failed": failed,
         "violation": CTX.violation and {k: v for k, v in CTX.violation.items() if k != "_size"},
         "shrink_runs": CTX.shrink_runs,
+        "sigs": sorted(CTX.sigs),
     }
     return out
 
